@@ -1004,6 +1004,9 @@ func runBlock(c *vh.Ctx, m *vh.Model, b *blockCase) {
 			}
 			c.Count("tx:selfdestruct-supply-checked-exactly")
 		}
+		if run.T.StepsExceedGas {
+			c.Violate("more-instructions-than-gas/"+scen, fmt.Sprintf("the transaction executed more than %d instructions with a gas limit of %d: run cancelled", run.T.Steps-1, tx.Gas()), rp())
+		}
 		if run.T.GasIncreased != "" {
 			c.Violate("frame-gas-increases/"+scen, "inside one frame the gas available rose between two instructions: "+run.T.GasIncreased, rp())
 		}
@@ -1033,7 +1036,11 @@ func runBlock(c *vh.Ctx, m *vh.Model, b *blockCase) {
 	var pused uint64
 	var perr error
 	pan, pv := vh.CatchPanic(func() {
-		pr, _, pused, perr = bc.Processor().Process(block, sdbB, vm.Config{})
+		guard := &StepGuard{Max: header.GasLimit}
+		pr, _, pused, perr = bc.Processor().Process(block, sdbB, vm.Config{Debug: true, Tracer: guard})
+		if guard.Exceeded {
+			c.Violate("more-instructions-than-gas/block", "a transaction of the block executed more instructions than the block gas limit: run cancelled", info(nil))
+		}
 	})
 	atHF4 := b.cc.atHF4()
 	issuance := issuanceSpec(num, uncleNums(b.uncles))
